@@ -564,6 +564,27 @@ def gen_word_case(rng):
             "json": int(rng.random() < 0.12), "par": int(rng.random() < 0.12)}
 
 
+# word configurations whose searched specification contains the reverse of a NON-equivalence rule (found by scanning
+# prefixes of length <= 2 x 12 pattern sets x 5 packs under the forest database): the only inputs on which
+# Bijection.construct must REFUSE although the specifications are isomorphic
+REFUSAL_STARTS = [("ba", ["bb"], "ab"), ("ab", ["aa"], "ab"), ("aa", ["aaa"], "ab"), ("bb", ["bbb"], "ab")]
+
+
+def gen_refusal_case(rng):
+    """one side is a REFUSAL_STARTS specification (pack factory2, forest database); the other the same or the
+    letter-swapped class, searched with the same or another pack / database: when the two come out isomorphic
+    construct has to return None (25bcc90)"""
+    p, pats, alph = rng.choice(REFUSAL_STARTS)
+    a = {"p": p, "pats": list(pats), "alph": alph, "pack": "factory2", "db": "forest", "seed": rng.randrange(3)}
+    st = (p, pats, alph) if rng.random() < 0.5 else (_swapab(p), sorted(_swapab(x) for x in pats), alph)
+    b = _wcfg(rng, st)
+    if rng.random() < 0.6:
+        b["pack"], b["db"] = "factory2", rng.choice(["forest", "forest", "base", "forget"])
+    if rng.random() < 0.5:
+        a, b = b, a
+    return {"t": "w", "a": a, "b": b, "N": 6, "json": int(rng.random() < 0.12), "par": 0}
+
+
 def gen_stat_case(rng):
     U = _U()
     i = rng.randrange(len(U.STAT_STARTS))
@@ -627,6 +648,8 @@ def gen(rng, tier):
             yield gen_chain_case(rng)
         elif r < 0.12:
             yield gen_asym_case(rng)
+        elif r < 0.14:
+            yield gen_refusal_case(rng)
         elif r < 0.62:
             yield gen_grammar_case(rng)
         elif r < 0.92:
@@ -911,6 +934,8 @@ def impl(case):
                    % (bij, found, " and a non-equivalence reverse rule is present" if blocked else ""))
     if blocked:
         tags.append("non-equivalence-reverse-rule")
+        if found and bij is None:
+            tags.append("construct-refusal")
     # ---- symmetry / reflexivity of the isomorphism test (oracle part)
     back = chk(s2, s1)
     asym = back != found
@@ -918,6 +943,12 @@ def impl(case):
         bij = Bijection.from_dict(json.loads(json.dumps(bij.to_jsonable())))
         s1, s2 = bij.domain, bij.codomain
         tags.append("json")
+        # the RELOADED pair must still be isomorphic, in both directions (a from_dict that keeps the order map
+        # but hands back other specifications would otherwise go unnoticed)
+        for x, y, nm in ((s1, s2, "domain, codomain"), (s2, s1, "codomain, domain")):
+            r = chk(x, y)
+            if r is not True:
+                why.append("after the JSON round trip of the bijection check(%s) = %s" % (nm, r))
     intern = {}
     d1, d2 = Desc(s1, intern), Desc(s2, intern)
     # descriptor guard (Iso/Construct.v nonequiv_reverse, C12_construct): the reverse of a non-equivalence rule
@@ -1079,13 +1110,49 @@ def key(case):
     return json.dumps(c, sort_keys=True)
 
 
+COVER = {}       # tag -> number of DISTINCT cases carrying it (main process, filled by classify)
+_COVER_SEEN = set()
+# coverage the run must reach (quick tier, 7000 cases; measured on seeds 0-2, floor = about half of the smallest count)
+COVER_MIN = {"quick": {"bijection+permuted-children": 150, "construct-refusal": 15, "json": 100},
+             "thorough": {"bijection+permuted-children": 400, "construct-refusal": 60, "json": 250}}
+
+
 def classify(case, res):
+    k = key(case)
+    if k not in _COVER_SEEN:
+        _COVER_SEEN.add(k)
+        tt = set(res.get("tags", []))
+        for tag in tt:
+            if tag in ("construct-refusal", "json") or tag.startswith("hypothesis-fails:"):
+                COVER[tag] = COVER.get(tag, 0) + 1
+        if "bijection" in tt and "permuted-children" in tt and res.get("nobj", 0) >= 1:
+            COVER["bijection+permuted-children"] = COVER.get("bijection+permuted-children", 0) + 1
     t = list(res.get("tags", []))
     t.append("type:" + case["t"])
     out = res.get("out")
     if isinstance(out, list) and len(out) > 1:
         t.append("isomorphic" if out[1] else "not-isomorphic")
     return t
+
+
+def extra_checks(ctx):
+    """coverage REQUIREMENTS (each can fail): the verdicts of this check are only worth something if the inputs reach
+    the branches they talk about"""
+    out = []
+    hf = {k: v for k, v in COVER.items() if k.startswith("hypothesis-fails:")}
+    out.append(("no case violates a hypothesis of the theorems (tag hypothesis-fails:*)", not hf,
+                "0 cases" if not hf else "the descriptor well-formedness the theorems assume fails: %r - the theorems do "
+                "not apply to these compared cases" % (hf,)))
+    need = COVER_MIN.get(ctx.tier, COVER_MIN["quick"])
+    if getattr(ctx, "cases", None) is not None and len(_COVER_SEEN) < N.get(ctx.tier, 0) // 2:
+        return out      # a run cut short (--n): coverage floors are stated for the full tier
+    for tag, n in sorted(need.items()):
+        got = COVER.get(tag, 0)
+        what = {"bijection+permuted-children": "constructed bijections with a permuted child order that mapped objects",
+                "construct-refusal": "isomorphic pairs on which Bijection.construct refused (non-equivalence reverse rule)",
+                "json": "bijections compared after a JSON round trip"}[tag]
+        out.append(("coverage: >= %d distinct cases with %s" % (n, what), got >= n, "%d distinct cases" % got))
+    return out
 
 
 def shrink(case):
@@ -1132,3 +1199,8 @@ def shrink(case):
             c = dict(case)
             c["grp" + side] = 1
             yield c
+
+# strengthening of the oracles (CLAUSES.md G.1 item 10)
+RULE += (
+    " 2% of the cases pair a specification containing the reverse of a non-equivalence rule (REFUSAL_STARTS, pack factory2, forest database) with the same or the letter-swapped class, so that the branch 'isomorphic but Bijection.construct refuses' is reached; after a JSON round trip of a bijection Isomorphism.check is re-run on the reloaded pair in both directions; extra checks REQUIRE coverage (distinct cases: no hypothesis-fails tag, >= 150 mapped bijections with a permuted child order, >= 15 refusals, >= 100 JSON round trips in the quick tier)."
+)
